@@ -131,6 +131,14 @@ def template_programs():
     for i, src in enumerate(ANNOTATED):
         out.append(('annotated/%d' % i, src + '\n'))
         out.append(('annotated_doc/%d' % i, '"""module docstring"""\n' + src + '\nprint(__doc__)\n'))
+    # modules in which the minifier cannot know what a name means (the dynamic-name triggers of C09): no raise site is known to
+    # refer to the builtin, the brackets stay
+    raising = ('def raising_function(value):\n    if value:\n        raise ValueError()\n    try:\n        raise KeyError()\n'
+               '    except KeyError:\n        raise RuntimeError() from TypeError()\n')
+    for i, trig in enumerate(['exec("pass")', 'eval("1")', 'print(locals())', 'print(globals())', 'print(vars())', 'from os.path import *',
+                              'import timeit', 'def uses_eval(text):\n    return eval(text)', 'class Holder:\n    namespace = vars()']):
+        out.append(('doc-dynamic/%d' % i, trig + '\n' + raising))
+        out.append(('doc-dynamic-after/%d' % i, raising + trig + '\n'))
     out.append(('docattr', '"""module docstring"""\ndef documented():\n    """function docstring"""\n    return documented.__doc__\n'))
     out.append(('docname', '"""module docstring"""\nprint(__doc__)\n"another literal"\n'))
     out.append(('docplain', '"""module docstring"""\ndef documented():\n    """function docstring"""\nclass Documented:\n    """class docstring"""\n'))
